@@ -407,6 +407,9 @@ func (b *Builder) addDir(dir string, userRequested bool) error {
 		}
 		err = b.addFile(pkgPath, absPath, data, userRequested)
 		if err != nil {
+			// Do not leave a partially parsed package behind: asking for it
+			// again must fail again, not succeed with the files parsed so far.
+			delete(b.parsed, pkgPath)
 			return fmt.Errorf("while parsing %q: %v", absPath, err)
 		}
 	}
